@@ -247,6 +247,7 @@ def pred (p : Params) : Pred Chain where
   repredictTok := repredictTok p
   candidates plain s := if p.hashAlg = 0 then [] else iterate p plain s.h s.pos 0
   update plain h pos len := policyUpdate p plain h pos len
-  calcBitLengths := HuffCalc.calcBitLengths
+  -- the Rust function returns Vec<u8>: entries are below 256 by typing
+  calcBitLengths := fun freq maxBits => (HuffCalc.calcBitLengths freq maxBits).map (· % 256)
 
 end Preflate.Chains
